@@ -96,6 +96,15 @@ func randPlan(r *Rng, n int) string {
 	return string(b)
 }
 
+// randPlanFaulty also lets the callback crash or roll dice of its own.
+func randPlanFaulty(r *Rng, n int) string {
+	b := make([]byte, n)
+	for i := range b {
+		b[i] = "vvvvvenrppdd"[r.Intn(12)]
+	}
+	return string(b)
+}
+
 // adversarial returns programs aimed at the resource clause and at known fragile shapes.
 // resourceAdversarial returns programs aimed at the resource clause (only meaningful, and only
 // generated, when an operation budget is configured).
